@@ -126,6 +126,7 @@ def job(args):
     newv = Rat.atom(('newcoef',))
     mutators = [('a.setter', lambda bf: w.interp.set_attr(bf, 'a', newv, None)), ('b.setter', lambda bf: w.interp.set_attr(bf, 'b', newv, None)),
                 ('c.setter', lambda bf: w.interp.set_attr(bf, 'c', newv, None)), ('periodic.setter', lambda bf: w.interp.set_attr(bf, 'periodic', True, None)),
+                ('periodic.setter[switch off]', lambda bf: (bf.attrs.__setitem__('_periodic', True), w.interp.set_attr(bf, 'periodic', False, None))),
                 ('defaultNoFlux', lambda bf: w.interp.call_function(cb.methods['defaultNoFlux'], [bf], self_obj=bf)),
                 ('fixedValue', lambda bf: w.interp.call_function(cb.methods['fixedValue'], [bf, newv], self_obj=bf)),
                 ('fixedGradient', lambda bf: w.interp.call_function(cb.methods['fixedGradient'], [bf, newv], self_obj=bf)),
@@ -167,7 +168,7 @@ def job(args):
     gv = w.interp.get_attr(phi2, 'value')
     ob('P2', 'cell.CellVariable.value.getter', isinstance(gv, View) and gv.root_box() is phi2.attrs['_value'], "value is a view of the tracked array (slice assignment reaches its base, P3)", cv.getters['value'].loc())
     # P5 apply_BCs
-    for precalc in (True, False):
+    for precalc, bflag, vflag in ((True, True, True), (False, True, True), (True, False, True), (True, True, False), (True, False, False)):
         bc = w.boundary_conditions()
         phi = w.cell_variable('phi', bc)
         phi.attrs['BCsTerm_precalc'] = precalc
@@ -175,21 +176,24 @@ def job(args):
         stale = w.call('boundary', 'boundaryConditionsTerm', stale_bc)
         if precalc:
             phi.attrs['_BCsTerm'] = stale
-        bc.attrs['left'].attrs['_a'].attrs['_modified'] = True
-        phi.attrs['_value'].attrs['_modified'] = True
+        # apply_BCs is the one place that re-establishes the invariant: whatever the flags say, afterwards ghosts and cache
+        # are those of the current coefficients (the flag object may be shared and already cleared by another holder)
+        bc.attrs['left'].attrs['_a'].attrs['_modified'] = bflag
+        phi.attrs['_value'].attrs['_modified'] = vflag
+        ftxt = '' if (bflag and vflag) else f"/BCs.modified={bflag},value.modified={vflag}"
         w.interp.call_function(cv.methods['apply_BCs'], [phi], self_obj=phi)
         val = snap(phi.attrs['_value'])
         interior = Box(Arr(tuple(w.N), lambda idx: Rat.atom(('phi',) + tuple(i + 1 for i in idx))))
         expect = snap(w.call('boundary', 'cellValuesWithBoundaries', interior, bc))
         G = tuple(ZERO if k == 0 else w.t[k] for k in range(d))
-        ob('P5', f"cell.CellVariable.apply_BCs/precalc={precalc}", is_zero(val.at(G) - expect.at(G)) and is_zero(val.at(tuple(w.t)) - Rat.atom(('phi',) + tuple(w.t))),
+        ob('P5', f"cell.CellVariable.apply_BCs/precalc={precalc}{ftxt}", is_zero(val.at(G) - expect.at(G)) and is_zero(val.at(tuple(w.t)) - Rat.atom(('phi',) + tuple(w.t))),
            f"ghost {F.cstr(G)} recomputed from the current coefficients: {fmt_rat(val.at(G), 5)}", cv.methods['apply_BCs'].loc())
-        ob('P5', f"cell.CellVariable.apply_BCs/precalc={precalc}/flags", (not _bc_dirty(w, bc)) and not vdirty(phi), "both flags clear afterwards", cv.methods['apply_BCs'].loc())
+        ob('P5', f"cell.CellVariable.apply_BCs/precalc={precalc}{ftxt}/flags", (not _bc_dirty(w, bc)) and not vdirty(phi), "both flags clear afterwards", cv.methods['apply_BCs'].loc())
         if precalc:
             M, _r = phi.attrs['_BCsTerm']
             row = F.row_by_col(w, w.matrix_row(M, G))
             names = {atom_key(a)[0] for (c, v) in row.values() for a in v.atoms() if isinstance(atom_key(a), tuple)}
-            ob('P5', f"cell.CellVariable.apply_BCs/precalc={precalc}/cache", 'bc' in names and 'stale' not in names, f"cached boundary row mentions coefficient sets {sorted(n for n in names if n in ('bc', 'stale'))}", cv.methods['apply_BCs'].loc())
+            ob('P5', f"cell.CellVariable.apply_BCs/precalc={precalc}{ftxt}/cache", 'bc' in names and 'stale' not in names, f"cached boundary row mentions coefficient sets {sorted(n for n in names if n in ('bc', 'stale'))}", cv.methods['apply_BCs'].loc())
     # P4 solvePDE with stale cache and dirty flags
     fs = sm.func('pdesolver', 'solvePDE')
     for bdirty, vd in ((True, False), (True, True), (False, True), (False, False)):
